@@ -56,6 +56,8 @@ def fund_cases(draw, tier):
                  "shockTimeLength": draw(st.integers(1, 5)), "enabled": draw(st.sampled_from([True, True, True, False]))}
     if draw(st.booleans()):
         del cfg["SH"]["shockTimeLength"]
+    if draw(st.integers(0, 3)) == 0:
+        cfg["SH"]["class"] = "VSubFundamentalPriceShock"  # a user subclass that inherits every handler
     via_templates(draw, cfg, "SH")
     shs2 = None
     if draw(st.integers(0, 2)) == 0:
@@ -156,9 +158,11 @@ def mistake_cases(draw, tier):
     ns = draw(st.integers(1, 3))
     lens = [draw(st.integers(1, 6)) for _ in range(ns)]
     shs = draw(st.integers(0, ns - 1))
-    cfg["OM"] = {"class": "OrderMistakeShock", "target": draw(st.sampled_from(names)), "triggerTime": draw(st.integers(0, lens[shs])),
+    cfg["OM"] = {"class": "OrderMistakeShock", "target": draw(st.sampled_from(names)), "triggerTime": draw(st.sampled_from([0, 0, draw(st.integers(0, lens[shs]))])),
                  "priceChangeRate": draw(st.sampled_from([-0.05, 0.05, -0.2, 0.1, 0.0])), "orderVolume": draw(st.integers(1, 500)),
                  "orderTimeLength": draw(st.integers(1, 10)), "enabled": draw(st.sampled_from([True, True, True, False]))}
+    if draw(st.integers(0, 3)) == 0:
+        cfg["OM"]["class"] = "VSubOrderMistakeShock"  # a user subclass that inherits every handler
     om_target, om_trigger = cfg["OM"]["target"], cfg["OM"]["triggerTime"]
     via_templates(draw, cfg, "OM")
     second = draw(st.integers(0, 2)) == 0
